@@ -57,7 +57,7 @@ NATIVE = {
     "C06": [("search-interrupt", ["--depth=3", "--maxnodes=120"], ["--depth=3", "--maxnodes=600"])],
     "C03": [("bestmove", [], []), ("uci-session", ["--positions=40"], ["--positions=300"])],
     "C07": [("overrun", [], [])],
-    "C05": [("minimax", ["--walks=300", "--depth=3"], ["--walks=3000", "--depth=3", "--backrank=60"])],
+    "C05": [("minimax", ["--walks=300", "--depth=3"], ["--walks=3000", "--depth=3", "--backrank=1500"])],
     "C08": [("mate-in-one", ["--walks=15"], ["--walks=300"])],
     "C13": [("newgame", ["--positions=8", "--depth=3", "--long=8", "--longdepth=6"], ["--positions=150", "--depth=5", "--long=8", "--longdepth=6"])],
     "C09": [("game-history", ["--games=40", "--plies=20"], ["--games=400", "--plies=40"])],
